@@ -329,6 +329,9 @@ func (w *world) Acquire(m *simsync.RWMutex, write bool) {
 // Release implements simsync.Hooks.
 func (w *world) Release(*simsync.RWMutex, bool) {}
 
+// Point implements simsync.Hooks.
+func (w *world) Point(string) {}
+
 func (w *world) newController(name string, _ manager.Manager, _ kcontroller.Options) (kcontroller.Controller, error) {
 	c := &fakeCtrl{w: w, id: len(w.ctrls) + 1, name: name, ctx: context.Background()}
 	w.ctrls = append(w.ctrls, c)
